@@ -40,6 +40,11 @@ class Prop(BaseProp):
         nrand = 5000 if self.tier == "quick" else 60000
         if idx < nrand:
             b = Builder(rng, p_doc=0.5, max_depth=3, p_clone=0.08, clone_toggle_doc=True, helpers_in_tests=0.2, p_doc_impl=0.12, class_arg_variants=True, p_end_doc=0.08)
+            if idx % 200 == 11:
+                # scale: several hundred top-level commands in one file (and, in blocks, commands nested tens of levels deep)
+                mod = b.module()
+                mod.items = b.items(0, n=rng.randint(300, 700))
+                return mod, b, "large"
             mod = b.module()
             res_clones = b.clones
             return mod, b, "random"
